@@ -237,6 +237,21 @@ def sessions(tier: str, seed: int, kinds=vloop.CLIENTS):
         log, _ = cf.run(kind, plan, fault_injector(kind, "eof", None, 60.0, plan), t_end=110.0)
         logs.append(log)
         meta.append((kind, "eof", 7, "ok", "refused seven times, then end of stream"))
+    # clients built with network mapping on: after every (re)connection they send three requests of their own, two seconds apart
+    # (the seeding of the map); a fault next to each of them, and long after
+    for kind in kinds:
+        for fault in ("eof", "reset", "write-error"):
+            if fault == "write-error" and kind == "actisense":
+                continue
+            for dt in (0.3, 1.9, 2.1, 3.0, 4.05, 5.0, 6.5, 12.0):
+                for cb in ("ok", "slowD"):
+                    if cb != "ok" and dt not in (0.3, 3.0):
+                        continue
+                    plan = cf.Plan(refuse=0)
+                    log, _ = cf.run(kind, plan, fault_injector(kind, fault, None, 0.0 + dt, plan), status_cb=cb,
+                                    client_kwargs={"build_network_map": True})
+                    logs.append(log)
+                    meta.append((kind, fault + "/network-map", 0, cb, f"+{dt}s"))
     # the serial client writes a configuration packet inside every connect attempt: a port whose first writes fail makes the
     # attempt fail after the port was opened (1, 2, 3, 5 attempts in a row, from the start or after a fault; mixed with
     # refusals).  Each such attempt must be followed by a growing pause, its port shut, and the session must end CONNECTED.
